@@ -38,8 +38,8 @@ var StandardFunctions = map[string]KeyBuilderFunction{
 	"subf":  arithmaticHelperf(func(a, b float64) float64 { return a - b }),
 	"multf": arithmaticHelperf(func(a, b float64) float64 { return a * b }),
 	"divf":  arithmaticHelperf(func(a, b float64) float64 { return a / b }),
-	"ceil":  unaryArithmaticHelperfi(func(f float64) int64 { return int64(math.Ceil(f)) }),
-	"floor": unaryArithmaticHelperfi(func(f float64) int64 { return int64(math.Floor(f)) }),
+	"ceil":  unaryArithmaticHelperfi(math.Ceil),
+	"floor": unaryArithmaticHelperfi(math.Floor),
 	"log10": unaryArithmaticHelperf(math.Log10),
 	"log2":  unaryArithmaticHelperf(math.Log2),
 	"ln":    unaryArithmaticHelperf(math.Log),
